@@ -9,6 +9,7 @@ import (
 	"log/slog"
 	"math/rand"
 	"runtime"
+	"sync/atomic"
 	"time"
 
 	"reduction.dev/reduction/dkv"
@@ -65,6 +66,7 @@ type env struct {
 	gfs      *lib.GateFS
 	mem      *storage.MemoryFilesystem
 	db       *dkv.DB
+	schedDB  atomic.Pointer[dkv.DB] // copy of db read by hook callbacks on other goroutines
 	model    *lib.RefMap
 	keys     [][]byte
 	prefixes [][]byte
@@ -100,9 +102,16 @@ func newEnv(c *lib.Ctx, nkeys int, yieldP int) *env {
 	e.dir = "d0"
 	e.sched = lib.NewSched(r.Int63(), yieldP)
 	e.sched.Install()
-	e.db = e.open(e.gfs, nil)
-	e.sched.SetFilter(func(name string, arg any) bool { return arg == any(e.db) })
+	e.setDB(e.open(e.gfs, nil))
+	e.sched.SetFilter(func(name string, arg any) bool { return arg == any(e.schedDB.Load()) })
 	return e
+}
+
+// setDB replaces the database under test; hook callbacks on the database's task goroutines compare
+// against the atomic copy.
+func (e *env) setDB(db *dkv.DB) {
+	e.db = db
+	e.schedDB.Store(db)
 }
 
 // fsView returns a GateFS view on another working directory sharing log and state.
